@@ -499,8 +499,8 @@ func randomMapTrace(id int, seed int64, steps int, out *json.Encoder, fixed *map
 		cfg.Cmp = rng.Intn(4) == 0 && cfg.KT != "struct"
 		if (profile == "reload" || profile == "general" || profile == "versions") && cfg.Marsh == "" && rng.Intn(8) == 0 {
 			cfg.Marsh = "jsonreg"
-			cfg.NF = "v1"
-			cfg.KT, cfg.VT = "string", "string"
+			cfg.NF = []string{"v1", "v1", "bin"}[rng.Intn(3)]
+			cfg.KT, cfg.VT = "string", []string{"string", "nilstr"}[rng.Intn(2)]
 			cfg.Cmp = false
 		}
 		if profile == "versions" {
